@@ -287,6 +287,10 @@ CATALOG: List[Cfg] = [
        keys_thorough=3, time_limit=2),
     _c("lbf-5-grid-fov2-T3", "lbf", "LevelBasedForaging(G.lbf.RandomGenerator(5, 2, 1, fov=2), "
        "grid_observation=True, time_limit=3)", kind="awkward", keys_quick=1, keys_thorough=3, time_limit=3),
+    _c("lbf-6x2x2-grid-T3", "lbf", "LevelBasedForaging(G.lbf.RandomGenerator(6, 2, 2, fov=2), "
+       "grid_observation=True, time_limit=3)", kind="awkward", keys_quick=1, keys_thorough=3, time_limit=3),
+    _c("lbf-6x2x2-vec-T3", "lbf", "LevelBasedForaging(G.lbf.RandomGenerator(6, 2, 2, fov=2), time_limit=3)",
+       kind="awkward", keys_quick=1, keys_thorough=3, time_limit=3, quick=False),
     _c("lbf-5-nonorm-pen-T2", "lbf", "LevelBasedForaging(G.lbf.RandomGenerator(5, 2, 1, fov=5), "
        "normalize_reward=False, penalty=1.0, time_limit=2)", kind="awkward", keys_quick=1,
        keys_thorough=3, time_limit=2),
@@ -315,6 +319,8 @@ CATALOG: List[Cfg] = [
     # ---------------- MultiCVRP
     _c("mcvrp-6x2", "multi_cvrp", "MultiCVRP(G.multi_cvrp.UniformRandomGenerator(6, 2))", depth=3,
        keys_quick=1, keys_thorough=3, horizon="12", max_states_quick=3000, modeb="last"),
+    _c("mcvrp-6x3", "multi_cvrp", "MultiCVRP(G.multi_cvrp.UniformRandomGenerator(6, 3))", depth=2, kind="awkward",
+       keys_quick=1, keys_thorough=2, horizon="12", max_states_quick=3000),
     _c("mcvrp-6x2-sparse", "multi_cvrp", "MultiCVRP(G.multi_cvrp.UniformRandomGenerator(6, 2), "
        "reward_fn=R.multi_cvrp.SparseReward(2, 6, 10))", depth=2, kind="awkward", keys_quick=1,
        keys_thorough=2, horizon="12", quick=False, modeb="last"),
